@@ -11,8 +11,8 @@ Tie 2 (fresh processes): harness/src/bin/c12.rs, ONE invocation = ONE fresh proc
         verdict + rendered diagnostics exactly, behaviour of the emitted wasm and TS under Node 22,
         MIR before/after optimisation up to a bijective renaming constructed here (canon_mir).
 Oracle: the comparison across processes *is* the implementation-side property oracle (it does not
-        use the model).  Open finding C12-F1 is matched by signature; C12-F2..F4 are fixed (regressions are violations;
-        their witnesses run first from corpus/C12/).
+        use the model).  Findings C12-F1..F4 are all fixed in /repo (regressions are violations; their witnesses run
+        first from corpus/C12/).
 """
 import json, os, re, subprocess, concurrent.futures as cf
 from . import common, scopegen
@@ -404,26 +404,8 @@ def n_mains(prog):
 
 
 def classify_diag_diff(ctx, prog, answers, orders):
-    """answers disagree in verdict/diag. Returns a finding (known) or None (violation)."""
-    fs = {f["id"]: f for f in ctx.open_findings}
-    verdicts = {a["verdict"] for a in answers}
-    if verdicts != {"errors"}:
-        return None
-    bl = [blocks(a["diag"]) for a in answers]
-    same_multiset = all(sorted(b) == sorted(bl[0]) for b in bl)
-    if same_multiset:
-        # only the order of blocks differs: F1 iff allocation orders differ and the per-module
-        # subsequences are identical
-        per_mod = lambda b: {m: [x for x in b if block_module(x) == m] for m in {block_module(x) for x in b}}
-        if all(per_mod(b) == per_mod(bl[0]) for b in bl) and len({tuple(o) for o in orders}) > 1 and "C12-F1" in fs:
-            # with the same allocation order the sequence must be the same
-            by_order = {}
-            for o, a in zip(orders, answers):
-                by_order.setdefault(tuple(o), set()).add(a["diag"])
-            if all(len(v) == 1 for v in by_order.values()):
-                return fs["C12-F1"]
-        return None
-    # block contents differ: no open finding covers that (C12-F2, C12-F4 are fixed: a regression is a violation)
+    """All four findings C12-F1..F4 are fixed: no open finding covers a difference in verdict or
+    rendered diagnostics (a regression is a violation)."""
     return None
 
 
@@ -450,10 +432,10 @@ def check_program(ctx, prog, rng, nproc, stats, label, shrink=True):
     """Compile `prog` in nproc fresh processes; compare. Returns True if clean (or only known)."""
     accepted_expected = prog.get("kind") == "accepted"
     orders = orders_for(rng, prog, nproc, True)
-    if not accepted_expected:
-        # diagnostics leg: the first nproc-2 processes use the same allocation order (hash seed and
-        # thread exploration), the last two a permuted one (order exploration, known finding C12-F1)
-        orders = [orders[0]] * max(1, nproc - 2) + orders[-2:] if nproc > 2 else orders
+    if not accepted_expected and nproc > 3:
+        # diagnostics leg: half of the processes share one allocation order (pure hash-seed / thread
+        # exploration), the others use permuted orders
+        orders = [orders[0]] * (nproc // 2) + orders[nproc // 2:]
     jobs = []
     for k, o in enumerate(orders):
         jobs.append((mk_req(prog, o, run=True, mir=True, std_last=(k % 3 == 2)), THREADS[k % len(THREADS)]))
@@ -606,8 +588,10 @@ def gen_errset_line(rng):
         groups.append([rng.pick(pool) if rng.chance(1, 2) else err() for _ in range(rng.range(0, 4))])
     fmt = lambda gs: ";".join(",".join(g) if g else "-" for g in gs)
     ms = ",".join(map(str, M)); ss = ",".join(map(str, S)) if S else "-"
+    ms2 = ",".join(map(str, rng.shuffle(M)))      # another allocation order of the same modules
     return [f"merge {ms} {ss} {fmt(groups)}", f"merge {ms} {ss} {fmt(rng.shuffle(groups))}",
-            f"merge {ms} {ss} {fmt([rng.shuffle([e for g in groups for e in g])])}"]
+            f"merge {ms} {ss} {fmt([rng.shuffle([e for g in groups for e in g])])}",
+            f"mergen {ms} {ss} {fmt(groups)}", f"mergen {ms2} {ss} {fmt(rng.shuffle(groups))}"]
 
 
 def py_key(spec, M, S):
@@ -638,12 +622,23 @@ def errset_leg(ctx, stats):
         b = model[i] if i < len(model) else "<missing>"
         t = l.split(" ")
         M = [int(x) for x in t[1].split(",")]; S = [] if t[2] == "-" else [int(x) for x in t[2].split(",")]
-        specs = sorted({e for g in t[3].split(";") if g != "-" for e in g.split(",")}, key=lambda s: py_key(s, M, S))
-        want = ",".join(specs) if specs else "-"
-        if a != want:
-            bad = ("oracle", i, a, want); break
-        if i % 3 and a != impl[i - (i % 3)]:
-            bad = ("merge-order", i, a, impl[i - (i % 3)]); break
+        uniq = {e for g in t[3].split(";") if g != "-" for e in g.split(",")}
+        if t[0] == "mergen":
+            # report in module-name order: independent of the allocation order M of the modules
+            # (module-internal order: position, then detail; details only tie-break equal positions)
+            heads = lambda es: ",".join("M{}.sam:{}:{}-{}:{}".format(f[0], *(int(x) + 1 for x in f[1:5])) for f in es)
+            want = heads(sorted((e.split(".") for e in uniq), key=lambda f: (int(f[0]), [int(x) for x in f[1:5]])))
+            if a != (want if want else "-"):
+                bad = ("oracle-by-name", i, a, want); break
+            if i % 5 == 4 and a != impl[i - 1]:
+                bad = ("module-allocation-order", i, a, impl[i - 1]); break
+        else:
+            specs = sorted(uniq, key=lambda s_: py_key(s_, M, S))
+            want = ",".join(specs) if specs else "-"
+            if a != want:
+                bad = ("oracle", i, a, want); break
+            if i % 5 in (1, 2) and a != impl[i - (i % 5)]:
+                bad = ("merge-order", i, a, impl[i - (i % 5)]); break
         if a != b:
             bad = ("model", i, a, b); break
     if bad is None:
@@ -655,36 +650,75 @@ def errset_leg(ctx, stats):
         ctx.violation("model/implementation disagreement on protocol errset (Model/ErrorSet.lean vs samlang_errors::ErrorSet)",
                       dict(payload, broken="correspondence errset"), no_input=True)
     else:
-        ctx.violation("samlang_errors::ErrorSet: merged order is not the sorted duplicate-free union / depends on the merge order", payload)
+        ctx.violation("samlang_errors::ErrorSet: merged order is not the sorted duplicate-free union / depends on the merge order / the by-name report depends on the allocation order of the modules", payload)
 
 # --------------------------------------------------------------------------- layout protocol
 
 def gen_layout_case(rng):
-    """2-4 enums referring to each other; one Main.main that first mentions them in a chosen order."""
-    k = rng.range(2, 4)
+    """2-5 type definitions (enums and structs) referring to each other; one Main.main that first
+    mentions them in a chosen order (through the parameter annotation of an unused lambda, which
+    works for types without constructible values too)."""
+    k = rng.range(2, 5)
     defs = []
-    for i in range(k):
+    nested = rng.chance(1, 2)
+    if nested:
+        # nesting shape for the in-progress bookkeeping: while type 0 is in progress, type 1 starts and
+        # finishes; type 2 has a single one-field data variant over a type that is still in progress
+        k = rng.range(3, 4)
+        inner = rng.pick(["0", "0", "1"])
+        first = [[rng.pick(["1", "1", "3" if k == 4 else "1"])], [rng.pick(["2", "2", "i"])]]
+        if rng.chance(1, 3):
+            first.reverse()
+        if rng.chance(2, 3):
+            first.insert(rng.below(3), [])
+        defs.append(("s", [x[0] for x in first if x]) if rng.chance(1, 6) else ("e", first))
+        b = [[rng.pick(["i", "i", "0", "2"])] for _ in range(rng.range(0, 2))]
+        b.insert(rng.below(len(b) + 1), [])
+        defs.append(("e", b))
+        c = [[inner]]
+        if rng.chance(2, 3):
+            c.insert(rng.below(2), [])
+        defs.append(("e", c))
+    for i in range(len(defs), k):
+        ref = lambda: rng.pick(["i"] + [str(j) for j in range(k)] * 2)
+        if rng.chance(1, 3):
+            defs.append(("s", [ref() for _ in range(rng.range(1, 3))]))
+            continue
         nv = rng.range(1, 3)
         variants = []
         for _ in range(nv):
             nf = rng.weighted([(1, 5), (2, 2)])
-            variants.append([rng.pick(["i"] + [str(j) for j in range(k)] * 2) for _ in range(nf)])
-        variants.insert(rng.below(len(variants) + 1), [])
-        defs.append(variants)
+            variants.append([ref() for _ in range(nf)])
+        if rng.chance(3, 4):
+            variants.insert(rng.below(len(variants) + 1), [])
+        defs.append(("e", variants))
     roots = rng.shuffle(list(range(k)))[:rng.range(1, k)]
+    tname = lambda f: "int" if f == "i" else f"E{f}"
     def vsrc(i, vi, fields):
-        return f"V{i}x{vi}" + ("(" + ", ".join("int" if f == "i" else f"E{f}" for f in fields) + ")" if fields else "")
-    classes = "".join(f"class E{i}({', '.join(vsrc(i, vi, f) for vi, f in enumerate(v))}) {{}}\n" for i, v in enumerate(defs))
-    nul = lambda i: next(vi for vi, f in enumerate(defs[i]) if not f)
-    body = " ".join(f"let _ = E{r}.V{r}x{nul(r)}();" for r in roots)
+        return f"V{i}x{vi}" + ("(" + ", ".join(tname(f) for f in fields) + ")" if fields else "")
+    classes = ""
+    for i, (kind, body) in enumerate(defs):
+        if kind == "s":
+            classes += f"class E{i}({', '.join(f'val f{fi}: {tname(f)}' for fi, f in enumerate(body))}) {{}}\n"
+        else:
+            classes += f"class E{i}({', '.join(vsrc(i, vi, f) for vi, f in enumerate(body))}) {{}}\n"
+    body = " ".join(f"let _ = (x{r}: E{r}) -> 0;" for r in roots)
     text = classes + f"class Main {{\n  function main(): unit = {{ {body} }}\n}}\n"
-    line = "layout " + ";".join(f"{i}:" + "|".join("+".join(f) if f else "-" for f in v) for i, v in enumerate(defs)) + " " + ",".join(map(str, roots))
+    parts = []
+    for i, (kind, b) in enumerate(defs):
+        if kind == "s":
+            parts.append(f"{i}=" + "+".join(b))
+        else:
+            parts.append(f"{i}:" + "|".join("+".join(f) if f else "-" for f in b))
+    line = "layout " + ";".join(parts) + " " + ",".join(map(str, roots))
     return {"sources": {"Main": text}, "entry": "Main", "std": False}, line, k
 
 
 def real_layouts(mir0, k):
     out = []
     for i in range(k):
+        if re.search(rf"(?m)^object type Main_E{i} = ", mir0):
+            out.append(f"{i}:s"); continue
         m = re.search(rf"(?m)^variant type Main_E{i} = \[(.*)\]$", mir0)
         if not m:
             out.append(f"{i}:?"); continue
@@ -695,7 +729,7 @@ def real_layouts(mir0, k):
 
 def layout_leg(ctx, stats):
     rng = ctx.rng.fork()
-    n = ctx.scale(60, 600)
+    n = ctx.scale(160, 1200)
     cases = [gen_layout_case(rng) for _ in range(n)]
     answers = run_configs([(mk_req(p, ["Main"], mir=True), THREADS[i % len(THREADS)]) for i, (p, _, _) in enumerate(cases)])
     stats["evaluations"] += n
@@ -763,21 +797,89 @@ def cex_leg(ctx, stats):
     stats["cex"] = {"cases": n, "non_exhaustive": nonexh, "answers_compared_per_case": 12,
                     "model_agrees": agree, "model_differs_(C07's business)": differ}
 
+# --------------------------------------------------------------------------- shared temp counter / thread schedule
+
+def tempctr_leg(ctx, stats):
+    """Real `TempPStrCounter` drawn from by real threads (harness `tempctr`) vs Model/TempCounter.lean:
+    the observed ids give the schedule; the model must reproduce the per-worker names from it, both
+    directly (`tempName`) and by renaming the names of the sequential schedule (`renameTo`,
+    temp_counter_renaming).  Oracle (no model): ids pairwise distinct, exactly the block
+    [start, start+N), increasing per worker."""
+    rng = ctx.rng.fork()
+    n = ctx.scale(40, 400)
+    lines = []
+    for _ in range(n):
+        k = rng.range(1, 6)
+        counts = [rng.pick([0, 1, 2, 5, 20, 60, 200]) for _ in range(k)]
+        if sum(counts) == 0:
+            counts[0] = 3
+        lines.append(f"tc {rng.pick([0, 7, 99, 1000, 99990])} " + ",".join(map(str, counts)))
+    rc, impl, err = common.run_exec(BIN(), ["tempctr"], lines)
+    mlines, interleaved = [], 0
+    for l, a in zip(lines, impl + ["<missing>"] * len(lines)):
+        t = l.split(" ")
+        start, counts = int(t[1]), [int(x) for x in t[2].split(",")]
+        try:
+            per = {int(x.split(":")[0]): [int(y) for y in x.split(":")[1].split(",")] for x in a.split(";")}
+        except ValueError:
+            ctx.violation("TempPStrCounter harness answer malformed", {"protocol": "tempctr", "line": l, "impl": a}, no_input=True)
+            return
+        ids = sorted((i, w) for w, v in per.items() for i in v)
+        ok = ([i for i, _ in ids] == list(range(start, start + sum(counts)))
+              and all(per.get(w, []) == sorted(per.get(w, [])) and len(per.get(w, [])) == c for w, c in enumerate(counts)))
+        if not ok:
+            ctx.violation("TempPStrCounter: names handed out to concurrent workers are not pairwise distinct / not the block [start, start+N) / not increasing per worker",
+                          {"protocol": "tempctr", "line": l, "impl": a})
+            return
+        sched = [w for _, w in ids]
+        if any(sched[j] > sched[j + 1] for j in range(len(sched) - 1)):
+            interleaved += 1
+        mlines.append(f"tc {start} " + ",".join(map(str, sched)))
+    rc, model, err = common.run_exec(common.driver_bin("C12"), [], mlines)
+    for l, ml, a, m in zip(lines, mlines, impl, model + ["<missing>"] * len(lines)):
+        if m != f"{a} | {a}":
+            ctx.violation("model/implementation disagreement on protocol tempctr (Model/TempCounter.lean vs samlang_heap::TempPStrCounter)",
+                          {"protocol": "tempctr", "line": l, "schedule_line": ml[:300], "impl": a[:300], "model": m[:600], "broken": "correspondence tempctr"}, no_input=True)
+            return
+    stats["tempctr"] = {"lines": n, "schedules_not_sequential": interleaved}
+
+
+def schedule_leg(ctx, stats):
+    """Same sources, same allocation order, RAYON_NUM_THREADS 1 vs 16 (fresh processes): behaviour and
+    unoptimised MIR must agree (strict, via compare); optimised MIR up to renaming is counted only:
+    common_subexpression_elimination.rs hoists common expressions in BTreeSet<BindedValue> order, which
+    compares the *text* of temp names (`_t99` > `_t100`), so a pure renaming is not guaranteed."""
+    rng = ctx.rng.fork()
+    n = ctx.scale(8, 80)
+    st = {"programs": 0, "mir1_equal_up_to_renaming": 0, "mir1_differs": 0, "mir1_differs_multicapture": 0}
+    for i in range(n):
+        if ctx.violations:
+            break
+        prog = gen_accepted(rng.fork(), 1000 + i)
+        order = sorted(prog["sources"])
+        answers = run_configs([(mk_req(prog, order, run=True, mir=True), th) for th in (1, 16, 16, 1)])
+        stats["evaluations"] += 4
+        local = {"error_kinds": {}, "diag_blocks": 0, "no_node": 0, "mir0_equal": 0, "mir0_differs": 0,
+                 "mir0_differs_multicapture": 0, "mir1_equal": 0, "mir1_differs": 0, "mir1_differs_multicapture": 0, "traces": 0}
+        r = compare(ctx, prog, answers, [order] * 4, local)
+        if r is not None and r[1] is None:
+            ctx.violation("identical sources and allocation order, RAYON_NUM_THREADS 1 vs 16: " + r[0],
+                          {"protocol": "fresh-process compile", "label": f"schedule#{i}", "sources": prog["sources"], "entry": prog["entry"],
+                           "std": True, "what": r[0]}, no_input=r[0].startswith(("enum layouts", "unoptimised MIR")))
+            break
+        st["programs"] += 1
+        st["mir1_equal_up_to_renaming"] += local["mir1_equal"]
+        st["mir1_differs"] += local["mir1_differs"]
+        st["mir1_differs_multicapture"] += local["mir1_differs_multicapture"]
+        stats["traces"] += local["traces"]
+    stats["schedule"] = st
+
 # --------------------------------------------------------------------------- run / replay
 
 def probes(ctx, stats):
-    """One dedicated probe per open finding (reported as KNOWN-FINDING while it still fails)."""
-    fs = {f["id"]: f for f in ctx.open_findings}
-    rng = ctx.rng.fork()
-    def distinct(prog, n, permute, key):
-        o = orders_for(rng, prog, n, permute)
-        a = run_configs([(mk_req(prog, x, run=(key == "beh")), THREADS[k % len(THREADS)]) for k, x in enumerate(o)])
-        stats["evaluations"] += n
-        return len({(behaviour(x) if key == "beh" else (x.get("verdict"), x.get("diag"))) for x in a})
-    if "C12-F1" in fs:
-        a = run_configs([(mk_req(F1_PROBE, ["A", "B"]), 1), (mk_req(F1_PROBE, ["B", "A"]), 1)])
-        if a[0].get("diag") != a[1].get("diag"):
-            ctx.known(fs["C12-F1"]); stats["known"]["C12-F1"] = stats["known"].get("C12-F1", 0) + 1
+    """One dedicated probe per *open* finding: there is none (C12-F1..F4 fixed; their witnesses are
+    corpus inputs that must pass)."""
+    return
 
 
 def load_corpus():
@@ -801,6 +903,8 @@ def run(ctx):
     errset_leg(ctx, stats)
     layout_leg(ctx, stats)
     cex_leg(ctx, stats)
+    tempctr_leg(ctx, stats)
+    schedule_leg(ctx, stats)
     rng = ctx.rng
     samples, nontrivial = [], 0
     for prog in load_corpus():
@@ -842,6 +946,7 @@ def run(ctx):
                 "useless patterns, unresolved names/classes/members/modules, arity, duplicates, syntax errors, cyclic interfaces, "
                 "underconstrained generics, or-pattern bindings, struct bindings, private access)",
         "samples": samples, "traces_validated_against_impl": stats["traces"] + stats.get("errset_ok", 0) + stats.get("layout_ok", 0),
+        "temp_counter_correspondence": stats.get("tempctr"), "threads_1_vs_16": stats.get("schedule"),
         "counterexample_search_permuted_maps": stats.get("cex", stats.get("cex_skipped")),
         "layout_cases_ok": stats.get("layout_ok", 0), "layout_cases_skipped": stats.get("layout_skipped", 0),
         "programs": n_acc + n_rej + n_seed, "program_streams": {"accepted_stream": n_acc, "rejected_stream": n_rej, "root_complete_nested_gap_stream": n_seed},
@@ -853,7 +958,7 @@ def run(ctx):
         "node_missing_programs": stats["no_node"],
         "compiler_panics_same_in_every_process": stats["panics"]})
     ctx.assumptions += [
-        "OrdStable: rendered order of diagnostics is a function of the error set only if handle ids (module references, heap strings) are ordered the same way in both runs (diagnostics_ids_partial); false in general: C12-F1, C12-F2",
+        "diagnostics_by_name_independent_of_module_ids assumes equal ids for the handles inside error details (heap strings: ids are handed out in module-name parse order since 06eeb5e; a ModuleReference inside a detail only tie-breaks two same-kind errors at one location)",
         "rayon's scheduler and SipHash are not modelled: the theorems quantify over all merge orders / enumeration orders / id assignments, the fresh-process runs supply concrete schedules and seeds",
     ]
     return ctx.finish(res, trusted=common.TRUSTED_COMMON + [
